@@ -3,8 +3,8 @@ import GuppyVerif.Util.Sexp
 /-! Line-protocol driver for C24.  One S-expression per line:
     `(chk fn|with <flags:nat> (<stmt>…))` → `ok` | `pre loop|assign` | `bb <err>…`
     `(kw u c d p)` → flags value of `_parse_kwargs`;  `(wf d|c|p …)` → flags value of a modifier list.
-    expr: `l` | `(p q s)` | `(c <flags> <retq> <expr>…)` | `(x <expr>…)` | `(n <q> <expr>…)`
-    stmt: `(e <expr>)` | `(a)` | `(a <expr>)` | `(i <expr> (<stmt>…) (<stmt>…))` | `(w <expr> (<stmt>…))`
+    expr: `l` | `(p q <index expr>…)` | `(c <flags> <retq> <expr>…)` | `(x <expr>…)` | `(n <q> <expr>…)`
+    stmt: `(e <expr>)` | `(a <target>)` | `(a <target> <expr>)` | `(i <expr> (<stmt>…) (<stmt>…))` | `(w <expr> (<stmt>…))`
           | `(wb <flags> (<expr>…) (<stmt>…))` -/
 open GuppyVerif GuppyVerif.Unitary
 
@@ -16,7 +16,7 @@ def bit? : Sexp → Option Bool
 mutual
 partial def expr? : Sexp → Option Expr
   | .atom "l" => some .leaf
-  | .list [.atom "p", q, s] => do some (.place (← bit? q) (← bit? s))
+  | .list (.atom "p" :: q :: is) => do some (.place (← bit? q) (← args? is))
   | .list (.atom "c" :: g :: r :: as) => do some (.call (Flags.ofNat (← g.asNat?)) (← args? as) (← bit? r))
   | .list (.atom "x" :: as) => do some (.exempt (← args? as))
   | .list (.atom "n" :: q :: as) => do some (.node (← args? as) (← bit? q))
@@ -29,8 +29,8 @@ end
 mutual
 partial def stmt? : Sexp → Option Stmt
   | .list [.atom "e", e] => do some (.expr (← expr? e))
-  | .list [.atom "a"] => some (.assign none)
-  | .list [.atom "a", e] => do some (.assign (some (← expr? e)))
+  | .list [.atom "a", t] => do some (.assign (← expr? t) none)
+  | .list [.atom "a", t, e] => do some (.assign (← expr? t) (some (← expr? e)))
   | .list [.atom "i", c, .list t, .list f] => do some (.ite (← expr? c) (← block? t) (← block? f))
   | .list [.atom "w", c, .list b] => do some (.while (← expr? c) (← block? b))
   | .list [.atom "wb", g, .list cs, .list b] => do
